@@ -89,6 +89,10 @@ fn sanitize_node(rng: &mut Rng, n: &mut BNode, in_array: bool) {
                 BLeaf::Unquoted(b) if !text_safe_unquoted(b) => *l = BLeaf::Quoted(b.clone()),
                 _ => {}
             }
+            // small numbers in the WIDE encodings too (the narrow integer targets of `leaf_ty` must read them alike)
+            if rng.chance(1, 8) {
+                match l { BLeaf::U32(v) => *l = BLeaf::U64((*v % 1001) as u64), BLeaf::I32(v) => *l = BLeaf::I64((*v % 1001) as i64), _ => {} }
+            }
             if let BLeaf::Quoted(b) = l { if b.contains(&b'"') || b.contains(&b'\\') { *l = BLeaf::Quoted(b"q".to_vec()); } }
             // decoding is part of what both formats share: a backslash in front of a letter is dropped and trailing
             // blanks are trimmed, for quoted AND unquoted binary strings alike (the text view quotes them)
